@@ -61,6 +61,34 @@ theorem C19_listobject_kth_item_fails (c : LenCfg) (E : Env α) (l pre post : Li
     · exact ⟨e, hv, Or.inl rfl⟩
     · exact ⟨.traitError, rfl, Or.inr rfl⟩
 
+/-- **The source itself is atomic**: whatever makes a translated
+`TraitListObject` method (with `super()` = the translated `TraitList` method)
+raise — the k-th item validator call, the length guard, the builtin — the
+interpreted source ends with the list as it was and nobody notified.  This is
+the statement of C19 for list mutators about `Generated/ListProg.lean`, i.e.
+about the text of `trait_list_object.py` as it is on this run. -/
+theorem C19_list_source_no_effect (c : LenCfg) (E : Env α) (l : List α) (op : Op α) (e : Exc)
+    (items : List α) (evs : List (Event α))
+    (h : PyL.runTraitListObjectOp Generated.listHelpers Generated.traitListProg Generated.traitListObjectProg
+          c E l op = .raised e items evs) :
+    items = l ∧ evs = [] := by
+  rw [C04.C04_step_is_source] at h
+  cases hs : TraitListObject.step c E l op with
+  | ok o => simp [PyL.summaryOfStep, hs] at h
+  | error e' =>
+    simp only [PyL.summaryOfStep, hs, PyL.Summary.raised.injEq] at h
+    exact ⟨h.2.1.symm, h.2.2.symm⟩
+
+/-- The k-th item validator call raising, at the level of the source: `extend`
+raises `e` (or the guard's `TraitError`), list untouched, no event. -/
+theorem C19_list_source_kth_item_fails (c : LenCfg) (E : Env α) (l pre post : List α) (x : α) (e : Exc)
+    (hpre : ∀ i (hi : i < pre.length), ∃ y, E.v i pre[i] = .ok y)
+    (hx : E.v pre.length x = .error e) :
+    ∃ e', PyL.runTraitListObjectOp Generated.listHelpers Generated.traitListProg Generated.traitListObjectProg
+            c E l (.extend (pre ++ x :: post)) = .raised e' l [] ∧ (e' = e ∨ e' = .traitError) := by
+  obtain ⟨⟨e', h1, h2⟩, _⟩ := C19_listobject_kth_item_fails c E l pre post x e hpre hx
+  exact ⟨e', by rw [C04.C04_step_is_source, h1]; rfl, h2⟩
+
 /-- **No effect at all**: a failing step of a List trait leaves contents and
 emits nothing (the history goes on from the same state). -/
 theorem C19_list_no_effect (c : LenCfg) (E : Env α) (l : List α) (op : TOp α)
